@@ -145,6 +145,16 @@ ARCH = {
     "arm64": dict(w=8, regs=["x%d" % i for i in range(29)] + ["fp", "lr", "sp", "pc"], alias={"x29": "fp", "x30": "lr"},
                   sp="sp", ip="pc", saved=["x%d" % i for i in range(19, 29)] + ["fp"], strict_sp=False,
                   strip=["pc", "lr", "fp"]),
+    # 32-bit ARM: r11/r13/r14/r15 are other names of fp/sp/lr/pc; a context frame may be a leaf (sp may stay)
+    "arm": dict(w=4, regs=["r%d" % i for i in range(11)] + ["r12", "fp", "sp", "lr", "pc"],
+                alias={"r11": "fp", "r13": "sp", "r14": "lr", "r15": "pc"}, sp="sp", ip="pc",
+                saved=["r4", "r5", "r6", "r7", "r8", "r9", "r10", "fp"], strict_sp=False, strip=[]),
+    # MIPS: one context layout with 64-bit slots; without the MIPS64 flag registers are 32 bits wide (a rule reads the
+    # low 32 bits of a slot, values must fit 32 bits); sp is among the registers forwarded by default
+    "mips": dict(w=4, regs=["gp", "sp", "fp", "ra", "pc"] + ["s%d" % i for i in range(8)], alias={}, sp="sp", ip="pc",
+                 saved=["s%d" % i for i in range(8)] + ["gp", "sp", "fp"], strict_sp=False, strip=[], view=32),
+    "mips64": dict(w=8, regs=["gp", "sp", "fp", "ra", "pc"] + ["s%d" % i for i in range(8)], alias={}, sp="sp", ip="pc",
+                   saved=["s%d" % i for i in range(8)] + ["gp", "sp", "fp"], strict_sp=False, strip=[]),
 }
 
 
@@ -229,7 +239,7 @@ def ref_real(f):
         c = canon_name(A, n)
         if c is None or (validset is not None and c not in validset):
             return None
-        return ctx.get(c, 0)
+        return ctx.get(c, 0) & ((1 << A.get("view", 64)) - 1)
     rules = ref_rules(initaddr, initsize, f[8], deltas, ip - MODBASE)
     if rules is None or ".cfa" not in rules or ".ra" not in rules:
         return "N", set()
@@ -511,13 +521,30 @@ class C06(PropBase):
                                  ".cfa: sp 16 + .ra: lr x30: 18446744073709551615"],
                           valids=["all", "pc,sp,fp", "pc,sp,x19,lr", "pc,fp"]),
         }
+        # second pass of round 5: the other contexts whose unwinder goes through CfiStackWalker
+        B["arm"] = dict(ctx="pc=%d,sp=%d,fp=%d,r4=11,r5=12,r0=14,lr=30" % (MODBASE + 0x100, SP, SP + 32),
+                        toks=["+", "-", "@", "^", ".cfa", ".undef", "8", "-1", "sp", "r13", "r4", "r11", "r0", "nope", "4294967296"],
+                        targets=["r4:", "r11:", "fp:", "r14:", "lr:", "r0:", "nope:", "r15:", "sp:", "r12:"],
+                        heads=[".cfa: sp 16 + .ra: 1073742080", ".cfa: sp .ra: 1073742080", ".cfa: sp 16 + .ra: 4095",
+                               ".cfa: r13 8 + .ra: .cfa 8 - ^", ".cfa: sp 16 + .ra: 1073742080 r11: 111 fp: 222",
+                               ".cfa: sp 16 - .ra: lr", ".cfa: 4294967296 .ra: 1073742080"],
+                        valids=["all", "pc,sp,fp", "pc,sp,r4,lr", "pc,fp"])
+        for m in ("mips", "mips64"):
+            B[m] = dict(ctx="pc=%d,sp=%d,fp=%d,s0=11,s1=4294967299,gp=77,ra=30" % (MODBASE + 0x100, SP, SP + 32),
+                        toks=["+", "-", "@", "^", ".cfa", ".undef", "8", "-1", "sp", "$s0", "s1", "ra", "nope", "4294967296", "$gp"],
+                        targets=["s0:", "$s1:", "gp:", "ra:", "fp:", "nope:", "pc:", "sp:"],
+                        heads=[".cfa: sp 16 + .ra: 1073742080", ".cfa: sp .ra: 1073742080", ".cfa: sp 16 + .ra: 4095",
+                               ".cfa: $sp 8 + .ra: .cfa 8 - ^", ".cfa: sp 16 - .ra: ra", ".cfa: s1 16 + .ra: 1073742080",
+                               ".cfa: 4294967296 sp + .ra: 1073742080"],
+                        valids=["all", "pc,sp,fp", "pc,sp,s0,ra", "pc,fp", "pc,sp,s1"])
+        NEW_ARCHES = ("arm", "mips", "mips64")
         for arch, d in B.items():
             LB = 2
             for n in range(0, LB + 1):
                 for c in itertools.product(d["toks"], repeat=n):
                     e = " ".join(c)
                     for hi, head in enumerate(d["heads"]):
-                        if hi > 0 and n == 2 and not rng.chance(1, 2 if tier == "quick" else 1):
+                        if hi > 0 and n == 2 and not rng.chance(1, (3 if arch in NEW_ARCHES else 2) if tier == "quick" else 1):
                             continue
                         tgts = [d["targets"][rng.below(len(d["targets"]))] for _k in range(2)] if n == 2 else d["targets"]
                         for t in tgts:
@@ -532,7 +559,7 @@ class C06(PropBase):
         # stack: the evaluator computes in u64 and the memory lookup takes the u64 address as it is, so such a rule
         # fails (x86; on the 64-bit architectures the same shapes wrap around 2^64 and are ordinary reads)
         for arch, d in B.items():
-            spn = {"x86": "$esp", "amd64": "$rsp", "arm64": "sp"}[arch]
+            spn = {"x86": "$esp", "amd64": "$rsp"}.get(arch, "sp")
             tgt = d["targets"][0]
             head0 = d["heads"][0]
             wide = []
